@@ -267,7 +267,14 @@ func runSchedule(s SchedSeq, prefix []int) (out schedOutcome, pre string, now in
 		order.WriteByte("AB"[pick])
 		state[pick] = 3
 		ctl.resume[pick] <- struct{}{}
-		if !wait(pick, 150*time.Millisecond) {
+		// only the state copy of the snapshot engine is expected to wait for the other actor (it spins while a
+		// write command is in flight); a command that does not reach its next point is given much longer, so
+		// that a loaded machine cannot turn a slow step into a spurious "blocked" (and a wrong recorded order)
+		patience := 5 * time.Second
+		if pick == 1 && s.isSnap() {
+			patience = 700 * time.Millisecond
+		}
+		if !wait(pick, patience) {
 			// the released actor neither finished nor reached another point: it is waiting for the other one
 			if pick == 1 {
 				out.blockedB = true
